@@ -117,6 +117,10 @@ func DecodeAttributeQuery(request string) (*samlp.AttributeQueryType, error) {
 		return nil, err
 	}
 
+	if attrEnv.Body.AttributeQuery == nil {
+		return nil, fmt.Errorf("soap body contains no attribute query")
+	}
+
 	return attrEnv.Body.AttributeQuery, nil
 }
 
